@@ -31,11 +31,13 @@ class C12Src(SrcWorld):
     name = "SRC-C12"
 
     def init_model(self, st):
-        st.m = {"covered": 0, "cancelled": None, "tid": False, "done": False, "ncancel": 0, "by_fault": False, "nnak": 0}
+        st.m = {"covered": 0, "cancelled": None, "tid": False, "done": False, "ncancel": 0, "by_fault": False, "nnak": 0, "tx": 1}
 
     def enabled(self, st):
         step = st.S.h.states.step.name
         evs = [("tick",)]
+        if st.m["done"] and self.idle(st) and st.m["tx"] < self.cfg.get("max_tx", 1):
+            evs.append(("put", "valid"))  # the next transaction on the same handler (whatever way the previous one ended)
         if st.m["ncancel"] < 2:
             evs += [("cancel", "right"), ("cancel", "wrong")]
         if self.c["mode"] == "ack" and st.m["nnak"] < 2 and step in ("SENDING_FILE_DATA", "RETRANSMITTING", "WAITING_FOR_EOF_ACK", "WAITING_FOR_FINISHED") \
@@ -56,6 +58,11 @@ class C12Src(SrcWorld):
     def update_model(self, st, ev, out):
         m = dict(st.m)
         out["pre_m"] = dict(st.m)
+        if ev[0] == "put":
+            if out.get("ret") is True:
+                m = {"covered": 0, "cancelled": None, "tid": False, "done": False, "ncancel": 0, "by_fault": False, "nnak": 0, "tx": m["tx"] + 1}
+            st.m = m
+            return
         if self.inds(out, "transaction"):
             m["tid"] = True
         emitted = self.emitted(out)
@@ -92,6 +99,10 @@ class C12Src(SrcWorld):
             v.append(Violation(P, clause, f"sender {ev} ({out['pre_state']}/{out['pre_step']} -> {out['post_state']}/{out['post_step']}, "
                                             f"{pre['covered']} bytes sent): {msg}", side="sender", **d))
 
+        if ev[0] == "put":
+            if e or out.get("ret") is not True:
+                bad("C12.next_put_refused", f"put request on the idle handler after the previous transaction ended: {e['exc'] if e else out.get('ret')!r}")
+            return v
         if ev[0] == "cancel":
             active = out["pre_state"] == "BUSY" and pre["tid"] and not pre["done"]
             want = active and ev[1] == "right"
@@ -306,6 +317,9 @@ def configs(tier):
         src.append(dict(size=size, seg=L, mode=mode, closure=closure, cks=cks, ack_limit=2))
     for mode, closure in itertools.product(("unack", "ack"), (False, True)):
         src.append(dict(md_only=True, size=0, mode=mode, closure=closure, ack_limit=2))
+    # a second transaction on the same handler, after the first one ended in any way (completed, cancelled at any step)
+    for mode, closure in (("unack", False), ("unack", True), ("ack", False)):
+        src.append(dict(size=L + 1, seg=L, mode=mode, closure=closure, ack_limit=2, max_tx=2))
     for size, mode, closure, disp in itertools.product((L - 1, 2 * L + 1) if tier == "quick" else (0, L - 1, 2 * L, 2 * L + 1), ("unack", "ack"), (False, True), (False, True)):
         if mode == "ack" and closure:
             continue
